@@ -50,10 +50,10 @@ def judge_check(ctx, what, raised, stack, expect, sig):
 
 # ---------------------------------------------------------------- block A
 def blockA(ctx, case):
-    flag, alloweds = case
+    flag, alloweds = case[0], case[1]
     seed = ctx.seed
     fields = fields_for(seed)
-    ks = keyseed(seed, 0)
+    ks = keyseed(seed, case[2] if len(case) > 2 else 0)
     pk = refed.public_key(ks)
     cache = cache_for(fields, 0xff)
     honest = refed.sign(ks, msg(fields, 0xff, flag))
@@ -264,7 +264,7 @@ def blocks(tier, seed):
         masks = sorted({0, 0xff} | {1 << i for i in range(8)} | {0xff ^ (1 << i) for i in range(8)})
     else:
         masks = list(range(256))
-    A = [(flag, masks) for flag in range(256)]
+    A = [(flag, masks) for flag in range(256)] if q else [(flag, masks, k) for flag in range(256) for k in range(3)]
     B = [(presence, v) for presence in range(256) for v in ((0,) if q else (0, 1))]
     if q:
         C = [(0, f, pr, part) for (f, pr) in ((0, 0xff), (0xa5, 0x7e)) for part in ('key', 'sig', 'fields')]
